@@ -38,3 +38,13 @@ claim("C19", "proof",
       "Labels are concrete names with all aliasing patterns (label opacity assumption); orders 0..8 via symbolic coefficients. "
       "Network validity is an exhaustive enumeration over 3 names x 2 species x 2 reactions (finite, exhaustive).",
       "deductive: token-level symbolic execution of real source + SMT", "DESIGN.md 3/C19")
+claim("C13", "proof",
+      "generate_species_state / generate_system_state / chemostat generators / RDSystem constructor and the per-entry "
+      "getters and setters are executed symbolically on grids of symbolic size (w,h,d), symbolic environment maps, symbolic "
+      "densities/flags/volumes and independent symbolic unit systems for species, network, space, nodes and system. The loop "
+      "over cells is handled by a generic iteration (rule R1) with ite-merge of the environment cases. Obligations: "
+      "si(state[s*n+i]) = density(env_i | default | 0) * volume, flag map, species-major index for 3 species forms x 3 "
+      "position forms, get/set touch exactly that entry (frame at a Skolem index), regeneration reflects edits.",
+      "Structure is enumerated, not symbolic: S <= 3 species, E <= 2 environments, graphs of 2 nodes, 6 dictionary shapes. "
+      "L9 (3-D index bound) is assumed as a lemma instance. Valid positions only (invalid: C20). A1.",
+      "deductive: symbolic execution of real source (generic iteration R1/R2) + SMT", "DESIGN.md 3/C13")
